@@ -2,3 +2,5 @@
 //! into the shadow crates.
 pub mod mbc;
 pub mod timer;
+pub mod joypad;
+pub mod lcd;
